@@ -128,12 +128,12 @@ Theorem C15_purge_delete_exact : forall raw root bk,
 Proof. intros raw root bk. apply purge_delete_exact_lemma, client_prefix_pfx_ok. Qed.
 Print Assumptions C15_purge_delete_exact.
 
-(** purge_object (s3.rs:593-646, /repo commit 900305c) for an ARBITRARY id [oid] whose looked-up
+(** purge_object (s3.rs:593-646, /repo commits 900305c, 2517003) for an ARBITRARY id [oid] whose looked-up
     root is [mapped] (any string the layout may produce), any inventory contents ([inv_id]), no
     failing request.  A root that fails validate_object_root (a ".." / "." / empty part,
     extensions/, nested within another object) is refused and nothing changes. *)
 Theorem C15_purge_refused : forall inv_id raw oid mapped bk,
-  s3_validate_object_root (bk_keys bk) (client_prefix raw) (trim_slashes mapped) = Err ->
+  s3_validate_object_root (bk_keys bk) (client_prefix raw) (trim_trailing_slashes mapped) = Err ->
   purge_object inv_id None (client_prefix raw) oid mapped (init_st bk) = (Err, init_st bk).
 Proof. intros inv_id raw oid mapped bk. apply purge_refused_lemma. Qed.
 Print Assumptions C15_purge_refused.
@@ -146,7 +146,7 @@ Print Assumptions C15_purge_refused.
     was asked for (or a remnant at its root that belongs to no object) is removed. *)
 Theorem C15_purge_exact : forall inv_id raw oid mapped bk objs dirs,
   let cprefix := client_prefix raw in
-  let root := trim_slashes mapped in
+  let root := trim_trailing_slashes mapped in
   keys_boundary_ok cprefix (bk_keys bk) ->
   s3_validate_object_root (bk_keys bk) cprefix root = Ok tt ->
   list_all (bk_keys bk) cprefix root true = Ok (objs, dirs) ->
@@ -163,7 +163,7 @@ Print Assumptions C15_purge_exact.
 
 (** the guards on concrete buckets: a directory other objects are stored beneath, the root of an
     object with another id, a path inside another object, extensions, "..", the object itself
-    (also looked up as "/coll/obj1/"), nothing stored *)
+    (also looked up as "coll/obj1//"; a leading slash is refused), nothing stored *)
 Theorem C15_purge_guard_cases :
   let inv_id := fun tok : bytes => match tok with c :: r => if Ascii.eqb c "I"%char then Some r else None | [] => None end in
   let bk := [(b "p/coll/obj1/0=ocfl_object_1.0", b "x"); (b "p/coll/obj1/inventory.json", b "Icoll/obj1");
@@ -178,8 +178,9 @@ Theorem C15_purge_guard_cases :
   bk_keys (st_b (snd (run (b "urn:obj:1") (b "1")))) =
     [b "p/coll/obj1/0=ocfl_object_1.0"; b "p/coll/obj1/inventory.json"; b "p/coll/obj1/v1/content/a";
      b "p/extensions/0002-flat-direct-storage-layout/config.json"] /\
-  bk_keys (st_b (snd (run (b "coll/obj1") (b "/coll/obj1/")))) =
+  bk_keys (st_b (snd (run (b "coll/obj1") (b "coll/obj1//")))) =
     [b "p/1/0=ocfl_object_1.1"; b "p/1/inventory.json"; b "p/extensions/0002-flat-direct-storage-layout/config.json"] /\
+  run (b "/coll/obj1") (b "/coll/obj1") = (Err, init_st bk) /\
   run (b "nothing") (b "nothing") = (Ok tt, mkSt bk 0 []).
 Proof. exact purge_guard_cases. Qed.
 Print Assumptions C15_purge_guard_cases.
